@@ -159,3 +159,11 @@ fn test_isqrt() {
         assert!(r * r <= n && n < (r + 1) * (r + 1));
     }
 }
+
+/// Access to private items for the verification harness.
+#[cfg(yamaquasi_verif)]
+pub mod verif_access {
+    pub fn isqrt(n: u64) -> u64 {
+        super::isqrt(n)
+    }
+}
